@@ -35,6 +35,7 @@ def check(ctx) -> None:
     r141(ctx)
     r142(ctx)
     r143(ctx)
+    r145(ctx)
     from . import c04
     before = len(ctx.rules)
     c04.r41(ctx)
@@ -231,3 +232,60 @@ def r143(ctx) -> None:
                     f'part of its effect is already applied',
                     f'{len(raises)} raise(s), {len(muts)} mutating '
                     f'call node(s)')
+
+
+def r145(ctx) -> None:
+    R = ctx.rule('R14.5', 'maildir: a message file that gets no UID record is '
+                 'removed again', 2)
+    cls = ctx.proj.cls(MAILDIR, 'MailboxData')
+    for name in ('append', 'copy'):
+        f = cls.own_method(name)
+        if f is None:
+            raise AnchorError(f'maildir {name} vanished')
+        adds = [(s_, c) for s_ in walk_local(f.node)
+                if isinstance(s_, ast.Assign) for c in [s_.value]
+                if isinstance(c, ast.Call) and call_name(c) == 'add'
+                and 'maildir' in txt(c.func.value)]
+        blocks = [w for w in walk_local(f.node)
+                  if isinstance(w, ast.AsyncWith) and any(
+                      isinstance(i.context_expr, ast.Call)
+                      and call_name(i.context_expr) == 'with_write'
+                      for i in w.items)]
+        if len(adds) != 1 or not blocks:
+            raise AnchorError(f'maildir {name}: add() / with_write block '
+                              f'not found')
+        st, addc = adds[0]
+        key = txt(st.targets[0])
+        recv = txt(addc.func.value)
+        ok = False
+        for w in blocks:
+            if not any(isinstance(x, ast.Call) and call_name(x) == 'set'
+                       for b in w.body for x in ast.walk(b)):
+                continue            # not the block that records the UID
+            for t in enclosing(f.node, w, (ast.Try,)):
+                if not any(w is x for b in t.body for x in ast.walk(b)):
+                    continue
+                for h in t.handlers:
+                    names = ['BaseException'] if h.type is None else (
+                        [txt(e).split('.')[-1] for e in h.type.elts]
+                        if isinstance(h.type, ast.Tuple)
+                        else [txt(h.type).split('.')[-1]])
+                    broad = 'BaseException' in names or (
+                        'Exception' in names and 'CancelledError' in names)
+                    undo = any(isinstance(x, ast.Call) and call_name(x) in (
+                        'discard', 'remove') and txt(x.func.value) == recv
+                        and x.args and txt(x.args[0]) == key
+                        for b in h.body for x in ast.walk(b))
+                    rer = any(isinstance(x, ast.Raise) for x in h.body)
+                    if broad and undo and rer:
+                        ok = True
+        R.check(ok, f, addc, f'maildir {name}: the added file is discarded '
+                f'when the UID-list update fails',
+                f'`{txt(st)}` puts the message file into the mailbox before '
+                f'the UID list is updated under its lock, and no `except '
+                f'BaseException: {recv}.discard({key}); raise` surrounds '
+                f'that update: a command cancelled while waiting for the '
+                f'lock (client went away) or a lock timeout leaves a file '
+                f'without UID, which the next reset() adopts — a message '
+                f'of an APPEND/COPY that never completed appears later, and '
+                f'the MULTIAPPEND rollback cannot remove it')
